@@ -36,7 +36,7 @@ type c20Case struct {
 	Resend bool `json:"resend,omitempty"`
 }
 
-var c20TextNames = []string{"esc-at-start", "plain", "triple-inside", "multiline-esc", "esc-not-at-start"}
+var c20TextNames = []string{"esc-at-start", "plain", "triple-inside", "multiline-esc", "esc-not-at-start", "esc-then-percent-verbs"}
 
 func c20Text(kind, code int) (lines []string, leadESC string) {
 	cls := code / 100
@@ -50,6 +50,8 @@ func c20Text(kind, code int) (lines []string, leadESC string) {
 		return []string{"relay from 10.4.7.1 denied by 172.5.1.9"}, ""
 	case 3:
 		return []string{esc + " first line", esc + " second line"}, esc
+	case 5:
+		return []string{esc + " quota 100% used (%s %d %v %!x) for <user%domain@example>"}, esc
 	default:
 		return []string{"rejected: see " + esc + " for details"}, ""
 	}
@@ -329,7 +331,7 @@ func init() {
 	vf.Register(&vf.Check{
 		ID: "C20", Title: "SendError reflects the server's verdict",
 		Run: func(r *vf.Run) {
-			r.SetRule("every reply code 400..599 × 5 reply-text kinds (enhanced code at start / plain / dotted triple inside / multi-line / enhanced code not at start) × position {MAIL, every non-empty subset of 3 RCPTs (mixed codes), DATA, end-of-data, RSET} × failing message 1..3 of a batch of 3 × ENHANCEDSTATUSCODES advertised or not, plus all pairs of failing messages; the oracle is a reference function of the replies the server actually sent; distinct by case tuple")
+			r.SetRule("every reply code 400..599 × 6 reply-text kinds (enhanced code at start / plain / dotted triple inside / multi-line / enhanced code not at start / text with '%' format verbs) × position {MAIL, every non-empty subset of 3 RCPTs (mixed codes), DATA, end-of-data, RSET} × failing message 1..3 of a batch of 3 × ENHANCEDSTATUSCODES advertised or not, plus all pairs of failing messages; the oracle is a reference function of the replies the server actually sent; distinct by case tuple")
 			r.Assume("the list of rejected recipients is read from SendError.Error() (no exported accessor)", "a message whose delivery succeeded but whose trailing RSET failed counts as delivered")
 			var cases []c20Case
 			codes := []int{}
@@ -338,7 +340,7 @@ func init() {
 			}
 			for _, esc := range []bool{true, false} {
 				for _, code := range codes {
-					for text := 0; text < 5; text++ {
+					for text := 0; text < len(c20TextNames); text++ {
 						for msg := 0; msg < 3; msg++ {
 							if !r.Thorough && msg != (code+text)%3 {
 								continue // quick: rotate the failing message instead of the full product
